@@ -20,6 +20,7 @@ EVIDENCE = dict(
 
 def run(ctx):
     q = ctx.tier == "quick"
+    ctx.extra_prefixes = ["docs_min", "c20"]   # minimal documents of the other formats
     ctx.tlc("LifecycleMC", "Lifecycle_mc.cfg")
     ctx.tlc("LifecycleMC", "Lifecycle_mc_impl.cfg", expect_violation=True)     # clone() shares the reader pointer
     ctx.tlc("LifecycleMC", "Lifecycle_mc_alias.cfg", expect_violation=True)    # clone() reuses the page slice (Go append aliasing)
@@ -35,6 +36,8 @@ def run(ctx):
     ctx.sample(life["cases"][len(life["cases"]) // 2])
     r1 = absorb(ctx, ctx.run_driver(["c10", "select"], sel["cases"]))
     r2 = absorb(ctx, ctx.run_driver(["c10", "life"], life["cases"]))
+    # the option-only histories again on a document of every other format (descriptor accounting, no panic)
+    r1 += absorb(ctx, ctx.run_driver(["c10", "lifefmt"], life["cases"]))
     ctx.extra["selection_cases_under_options"] = len(selo["cases"])
     r1 += absorb(ctx, ctx.run_driver(["c10", "selectopts"], selo["cases"]))
     mach = [r for r in r1 + r2 if (r.get("sig") or "").startswith("MACHINERY")]
@@ -57,5 +60,9 @@ def run(ctx):
 
 
 def replay(ctx, rp):
+    ctx.extra_prefixes = ["docs_min", "c20"]
     c = (rp.get("replay") or {}).get("case") or {}
-    return replay_generic(ctx, rp, ["c10", "life" if "log" in c else ("selectopts" if "opts" in c else "select")])
+    mode = "life" if "log" in c else ("selectopts" if "opts" in c else "select")
+    if mode == "life" and (rp.get("replay") or {}).get("format"):
+        mode = "lifefmt"
+    return replay_generic(ctx, rp, ["c10", mode])
